@@ -81,11 +81,17 @@ class Ctx:
     def log(self, *a):
         print('[%s %6.1fs]' % (self.pid, time.time() - self.t0), *a, flush=True)
 
-    def violation(self, key, what, replay):
+    def violation(self, key, what, replay, instance=None):
         """Report one violation. `key` names the failing input class / call site / history
-        shape; identical keys are reported once (first = smallest, as search is simplest-first)."""
+        shape; identical keys are reported once (first = smallest, as search is simplest-first).
+        A known finding whose entry carries `instances_file` only covers the inputs listed in that
+        committed file: the same kind of failure on any other input is a violation of its own."""
         for k in self.known:
             if fnmatch.fnmatchcase(key, k['key']):
+                if k.get('instances_file'):
+                    if instance is None or instance not in self._instances(k):
+                        key = key + ':input-not-in-known-list'
+                        break
                 if k['key'] not in self.known_hit:
                     self.known_hit[k['key']] = (k, what, replay)
                 return False
@@ -101,6 +107,14 @@ class Ctx:
         self.viol[key] = [what, path, 1]
         self.log('violation', key, '-', what)
         return True
+
+    def _instances(self, k):
+        cache = self.__dict__.setdefault('_inst_cache', {})
+        f = k['instances_file']
+        if f not in cache:
+            with open(os.path.join(VERIF, f)) as fh:
+                cache[f] = {l.rstrip('\n') for l in fh if l.strip() and not l.startswith('#')}
+        return cache[f]
 
     def finish(self, coverage, assumptions=()):
         wall = time.time() - self.t0
